@@ -72,7 +72,8 @@ def run(ctx):
         events.append({"kind": "dac", "shape": sh, "sps": sps, "bits": bits, "vout": int(vout * 64), "bias": int(bias * 64), "wave": ints64(w.signal)})
         meta.append(("dac", sh, sps, f))
         ctx.case(("rdac", sh, sps % 2, sps > 16, f, vout > 0))
-        ks = range(sps) if it % 5 == 0 else [rnd.randrange(sps) for _ in range(3)] + [0, sps - 1, sps // 2]
+        ks = list(range(sps)) if it % 5 == 0 else [rnd.randrange(sps) for _ in range(3)] + [0, sps - 1, sps // 2]
+        ks = list(ks) + [k_ for k_ in (sps, sps + 1, 2 * sps - 1) if k_ < n * sps]          # instants beyond the first slot: samples k, k+sps, ... all the same
         noise = np.array([rnd.randrange(-64, 65) for _ in range(w.len())]) / 64 if it % 2 else None
         x = electrical_signal(w.signal, noise)
         for a in (x.signal, x.noise):
@@ -102,7 +103,8 @@ def run(ctx):
                 # an isolated 1, alone or followed (six empty slots later) by a run of ones elsewhere in the same record
                 bits = [0, 0, 0, 0, 1, 0, 0, 0, 0] + ([0, 0, 1, 1, 1, 0, 0, 0, 0, 1, 1] if (m + Tw) % 2 else [])
                 with deadline(60):
-                    w = DAC(bits, bias, vout, "gaussian", T=Tw, m=m) if Tw != sps else DAC(bits, bias, vout, "gaussian", m=m)      # default width T = sps
+                    chirp = [0.0, 0.0, 1.0, -2.0, 0.5][(m + Tw + sps) % 5]          # the envelope's three observables do not depend on the chirp
+                    w = DAC(bits, bias, vout, "gaussian", T=Tw, m=m, c=chirp) if Tw != sps else DAC(bits, bias, vout, "gaussian", m=m, c=chirp)      # default width T = sps
                     s = SAMPLER(w, sps // 2)
                 y = np.abs(np.asarray(w.signal) - bias)[:9 * sps]          # pulse magnitude above the bias, around the isolated 1
                 i = int(np.argmax(y))
@@ -147,10 +149,15 @@ def run(ctx):
               "T-neg": dict(pulse_shape="gaussian", T=-3), "T-over-2sps": dict(pulse_shape="gaussian", T=17), "shape-unknown": dict(pulse_shape="sinc")}
     for i_, nm in enumerate(["", "r", "z", "g", "gauss", "sian", "nrzz", "rzz", "tri", "n", "rec"]):
         faults[f"shape-unknown-{i_}"] = dict(pulse_shape=nm)
-    for name, kw in faults.items():
+    with warnings.catch_warnings():
+        warnings.simplefilter("ignore")
+        gv(sps=8, R=1e9)
+    faults.update({"vout-48-gauss-narrow": dict(Vout=48.0, pulse_shape="gaussian", T=4), "vout-49.5-gauss-narrow": dict(Vout=49.5, pulse_shape="gaussian", T=4),
+                   "bias-48-gauss": dict(bias=48.0, pulse_shape="gaussian"), "vout-neg1000-rz": dict(Vout=-1000.0, pulse_shape="rz")})
+    for name, kw in [(n_, k_) for n_, k_ in faults.items()] + [(n_ + "@zeros", k_) for n_, k_ in faults.items() if n_.startswith(("vout-", "bias-")) and n_ != "bias-none-ok"]:
         try:
             with deadline(30):
-                DAC("0110", **kw)
+                DAC("0000" if name.endswith("@zeros") else "0110", **kw)     # the verdict on an argument does not depend on the data
             raised = "ok"
         except TypeError:
             raised = "TypeError"
@@ -158,7 +165,7 @@ def run(ctx):
             raised = "ValueError"
         except Exception as e:
             raised = type(e).__name__
-        events.append({"kind": "verdict", "fault": "shape-unknown" if name.startswith("shape-unknown") else name, "raised": raised})
+        events.append({"kind": "verdict", "fault": "shape-unknown" if name.startswith("shape-unknown") else name.split("@")[0], "raised": raised})
         meta.append(("verdict", name))
         ctx.case(("verdict", name), None, nontrivial=False)
     gv.clean()
